@@ -466,6 +466,7 @@ func deepCopyRule(fc *FnCtx, st *State, in ssa.Instruction, c *ssa.CallCommon, a
 	big := len(ls) > 300
 	fc.useTrusted("generated (*T).DeepCopy(): fresh object, equal scalar fields, pointer fields nil iff original nil and pointing to fresh memory, pointed-to scalar cells copied; slices/maps keep their length only")
 	src := args[0].T
+	before := st.alloc()
 	ref := st.newRef()
 	fc.q.assert(implies(st.reach, fmt.Sprintf("(= (rootTy %s) %d)", st.alloc(), ti.typeID(types.Unalias(pt.Elem())))))
 	for _, l := range ls {
@@ -492,6 +493,8 @@ func deepCopyRule(fc *FnCtx, st *State, in ssa.Instruction, c *ssa.CallCommon, a
 	}
 	r := fc.q.freshConst("deepcopy", sRef)
 	fc.q.assert(implies(st.reach, eq(r, ite(eq(src, "nilref"), "nilref", ref))))
+	// a deep copy shares nothing with memory that existed before the call
+	st.young[r] = before
 	return Val{T: r}, true
 }
 
